@@ -52,3 +52,15 @@ def tree_hash(paths):
                     except OSError:
                         pass
     return h.hexdigest()[:16]
+
+
+def extraction_targets():
+    """the .vo files coq/extraction/build.sh requires (every `Require:` line of parts/*.txt), so that a check can
+    build the shared driver from a clean tree without `./vcheck setup`"""
+    parts = os.path.join(vlib.COQ, "extraction", "parts")
+    mods = []
+    for fn in sorted(os.listdir(parts)):
+        for l in open(os.path.join(parts, fn)):
+            if l.startswith("Require:"):
+                mods += l[len("Require:"):].split()
+    return ["theories/" + m.replace(".", "/") + ".vo" for m in mods]
